@@ -71,3 +71,11 @@ Theorem C06_every_requested_evaluation_is_counted_costed_and_stored : forall S P
   paveba_queries_and_stores_same_set = true.
 Proof. intros. repeat split. Qed.
 Print Assumptions C06_every_requested_evaluation_is_counted_costed_and_stored.
+
+(* the per-objective costs the algorithm books are the ones the caller passed: the regenerated constructors of the decoupled
+   acquisitions store the vector as it is and never write to it *)
+From VOPyGen Require Gen_extra.
+Theorem C06_acquisitions_leave_the_cost_vector_alone :
+  (forall costs, Gen_extra.gen_decoupled_acq_costs costs = costs) /\ Gen_extra.gen_decoupled_acq_writes_to_callers_costs = false.
+Proof. split; [intros costs; reflexivity | reflexivity]. Qed.
+Print Assumptions C06_acquisitions_leave_the_cost_vector_alone.
